@@ -69,7 +69,7 @@ Theorem size_spec_delete : forall b key exact,
 Proof. exact delete_btree_spec_proof. Qed.
 Print Assumptions size_spec_delete.
 
-(* the defect repaired in /repo c9e1ffb, kept as a machine-checked witness: with the root
+(* the defect repaired in /repo 68e82b5, kept as a machine-checked witness: with the root
    collapse only after successful deletes (`delete_tree_before_fix`), three deletes of absent keys
    on the well-formed 17-key tree leave a root without keys over a minimal child, and the next
    delete of a key that is present ends in IndexError - so delete_wf fails for that code *)
